@@ -415,6 +415,71 @@ def cross_process(chk, workdir, refs):
 CACHE_EVENTS = {"cache_get", "cache_hit", "cache_put_begin", "cache_put_end", "ext_truncate", "ext_newdir"}
 
 
+def interface_histories(chk, workdir):
+    """the same property through the configuration layer: `parallel.use_cache: true` makes the series drivers attach a cache in
+    the working directory (.bldfm_cache). Configurations that differ in one option are run one after the other over the same
+    directory, twice (the second pass is served from it); every result equals the run with caching off."""
+    import copy as _copy
+
+    from bldfm import parse_config_dict, run_bldfm_multitower
+
+    base = {"domain": {"nx": 8, "ny": 6, "xmax": 160.0, "ymax": 90.0, "nz": 6, "modes": [8, 6], "halo": 20.0, "ref_lat": 50.0, "ref_lon": 11.0},
+            "towers": [{"name": "a", "lat": 50.0003, "lon": 11.0006, "z_m": 4.0}, {"name": "b", "lat": 50.0005, "lon": 11.0011, "z_m": 6.0}],
+            "met": {"ustar": [0.3, 0.45], "mol": -120.0, "wind_speed": 3.5, "wind_dir": [200.0, 250.0]},
+            "solver": {"footprint": True, "precision": "double", "closure": "MOST"}, "parallel": {"use_cache": True}}
+
+    def variant(**kw):
+        raw = _copy.deepcopy(base)
+        for k, v in kw.items():
+            sec, key = k.split("__")
+            raw[sec][key] = v
+        return raw
+
+    variants = [("base", variant()), ("levels [2, 5]", variant(domain__output_levels=[2, 5])), ("levels [5, 2]", variant(domain__output_levels=[5, 2])), ("full output", variant(domain__full_output=True)),
+                ("nx 10", variant(domain__nx=10)), ("halo 0", variant(domain__halo=0.0)), ("no halo given", variant(domain__halo=None)), ("modes (6, 4)", variant(domain__modes=[6, 4])),
+                ("analytic", variant(solver__analytic=True, solver__closure="CONSTANT")), ("single precision", variant(solver__precision="single")), ("another stability", variant(met__mol=80.0))]
+    d = os.path.join(workdir, "iface")
+    shutil.rmtree(d, ignore_errors=True)
+    os.makedirs(d)
+    here = os.getcwd()
+    n = 0
+    try:
+        os.chdir(d)
+        refs = {}
+        for name, raw in variants:
+            off = _copy.deepcopy(raw)
+            off["parallel"]["use_cache"] = False
+            if off["domain"].get("halo", 0) is None:
+                del off["domain"]["halo"]
+            cfg_off = parse_config_dict(off)
+            refs[name] = run_bldfm_multitower(cfg_off)
+        order = [variants[i] for i in np.random.default_rng(seed() + 11).permutation(len(variants))]
+        for rnd in (1, 2):
+            for name, raw in order:
+                raw = _copy.deepcopy(raw)
+                if raw["domain"].get("halo", 0) is None:
+                    del raw["domain"]["halo"]
+                cfg = parse_config_dict(raw)
+                sc = {"kind": "interface_history", "variant": name, "pass": rnd, "order": [o[0] for o in order]}
+                chk.case(json.dumps([name, rnd]))
+                n += 1
+                try:
+                    got = run_bldfm_multitower(cfg)
+                except Exception as ex:  # noqa: BLE001
+                    chk.violation("series driver with caching on raised %s: %s (configuration '%s', pass %d)" % (type(ex).__name__, str(ex)[:100], name, rnd), sc, klass={"check": "interface_fatal"})
+                    continue
+                ref = refs[name]
+                bad = [(tn, i_) for tn in ref for i_ in range(len(ref[tn]))
+                       if not (np.array_equal(np.asarray(got[tn][i_]["flx"]), np.asarray(ref[tn][i_]["flx"])) and np.array_equal(np.asarray(got[tn][i_]["conc"]), np.asarray(ref[tn][i_]["conc"]))
+                               and all(np.array_equal(np.asarray(a_), np.asarray(b_)) for a_, b_ in zip(got[tn][i_]["grid"], ref[tn][i_]["grid"])))]
+                if bad:
+                    chk.violation("configuration '%s' run through the series driver with caching on (pass %d over one cache directory, after %s) differs from the run with caching off at %s"
+                                  % (name, rnd, [o[0] for o in order[: order.index((name, [r_ for n_, r_ in variants if n_ == name][0]))]] if rnd == 1 else "the whole first pass", bad[:3]), sc, klass={"check": "interface_transparent", "variant": name})
+    finally:
+        os.chdir(here)
+    return n
+
+
 def validate_cache_trace(chk, tracefile):
     """code -> spec: the recorded cache events must be a behaviour of the store of Cache.tla (spec/TraceCache.tla)"""
     from .trace_solver import read_events
@@ -518,6 +583,7 @@ def main():
     chk.extra["truncation_offsets"] = truncation_sweep(chk, work, refs, "all" if t == "thorough" else "sample")
     chk.extra["concurrent_requests"] = concurrent_stress(chk, work, refs, 3 if t == "quick" else 25)
     chk.extra["cross_process_requests"] = cross_process(chk, work, refs)
+    chk.extra["interface_history_runs"] = interface_histories(chk, work)
     os.environ.pop("BLDFM_VERIF_TRACE", None)
     validate_cache_trace(chk, tracefile)
     if t == "thorough":
